@@ -2,6 +2,7 @@ package mon
 
 import (
 	"fmt"
+	"math/rand/v2"
 	"strings"
 
 	"github.com/xjslang/xjs/ast"
@@ -233,7 +234,10 @@ func firstDiffKind(a, b string) string {
 func runC06(t *fw.T) {
 	r := t.Rand()
 	o := gen.SynOpts{ExprDepth: 2 + r.IntN(4), StmtDepth: 1 + r.IntN(3), MaxStmts: 1 + r.IntN(5), NumDot: r.IntN(4) == 0}
-	prog := gen.NewSyn(r, o).Program()
+	checkC06Prog(t, r, gen.NewSyn(r, o).Program())
+}
+
+func checkC06Prog(t *fw.T, r *rand.Rand, prog *gen.Node) {
 	l := stdLayouts[r.IntN(len(stdLayouts))]
 	if r.IntN(3) == 0 {
 		l = randomLayout(r)
